@@ -14,7 +14,7 @@ package main
 //   c<E>                   cancel E's context
 //   x<c>                   the server closes connection c
 //   pre=<n>: n sequential exchanges (query, correct reply, return) before the ops, summarised.
-// out  : pre=<n>:<maxid+1>:<uniq>+...;<bad> log=<group>|<group>|...  (one group per op)
+// out  : pre=<n>:<maxid+1>:<uniq>+...;<wrong messages>;<errors> log=<group>|<group>|...  (one group per op)
 //   q<E>:<c>:<id>  i<c>:<id>:<p>|i-  m<E>:<ID>:<p>  e<E>:cancel|err  x<c>|x-  t<E>
 //   plus a last group: k<c> for every exhausted connection the client closed (end of life)
 
@@ -511,7 +511,7 @@ func c05runOnce(cs string) string {
 	}()
 
 	// ---- prefix: pre sequential exchanges answered at once by the server
-	bad := 0
+	bad, nerr := 0, 0
 	if pre > 0 {
 		w.mu.Lock()
 		w.auto = true
@@ -523,12 +523,14 @@ func c05runOnce(cs string) string {
 			ctx, cancel := context.WithTimeout(context.Background(), 2*time.Second)
 			r, err := tr.ExchangeContext(ctx, qb)
 			cancel()
-			if err != nil || r == nil || int(r.Header.ID) != cid || len(r.Answers) != 1 ||
+			if err != nil || r == nil {
+				nerr++ // no message: not a wrong message
+			} else if int(r.Header.ID) != cid || len(r.Answers) != 1 ||
 				int(r.Answers[0].Hdr().TTL) != c05preNonce(e) || int(binary.BigEndian.Uint16(qb)) != cid {
 				bad++
-				if bad > 8 {
-					break
-				}
+			}
+			if bad+nerr > 8 {
+				break
 			}
 			if r != nil {
 				dnsmsg.ReleaseMsg(r)
@@ -548,7 +550,7 @@ func c05runOnce(cs string) string {
 	if len(ps) > 0 {
 		presum = strings.Join(ps, "+")
 	}
-	presum += fmt.Sprintf(";%d", bad)
+	presum += fmt.Sprintf(";%d;%d", bad, nerr)
 
 	// ---- ops
 	var groups []string
